@@ -125,7 +125,9 @@ type cfgSpec struct {
 	Entries []entry // unique keys
 }
 
-func isRegexpKey(k string) bool { return len(k) >= 2 && strings.HasPrefix(k, "/") && strings.HasSuffix(k, "/") }
+func isRegexpKey(k string) bool {
+	return len(k) >= 2 && strings.HasPrefix(k, "/") && strings.HasSuffix(k, "/")
+}
 
 func (c *cfgSpec) String() string {
 	if c.Auto {
